@@ -95,13 +95,11 @@ struct scenario {
   leaf_cfg get(int id, int n) const {
     leaf_cfg c = def;
     auto it = cfg.find({id, n});
-    if (it != cfg.end()) {
+    if (it != cfg.end())
+      return it->second;  // an explicit entry for this very start is honoured as is (streams)
+    it = cfg.find({id, -1});
+    if (it != cfg.end())
       c = it->second;
-    } else {
-      it = cfg.find({id, -1});
-      if (it != cfg.end())
-        c = it->second;
-    }
     // loops (retry_when, repeat_effect_until) must terminate: the third and later
     // starts of any leaf succeed
     if (n >= 2)
@@ -613,6 +611,12 @@ struct leaf_values {
   template <template <typename...> class Variant, template <typename...> class Tuple>
   using apply = Variant<Tuple<VT>>;
 };
+struct novalue {};  // a sender with no value overload (stream cleanup senders complete with done)
+template <>
+struct leaf_values<novalue> {
+  template <template <typename...> class Variant, template <typename...> class Tuple>
+  using apply = Variant<>;
+};
 template <>
 struct leaf_values<void> {
   template <template <typename...> class Variant, template <typename...> class Tuple>
@@ -744,10 +748,16 @@ struct leaf : tracked<K_LEAFSND> {
       }
       if (oc == OC_DONE && !SendsDone)
         oc = OC_VALUE;
+      if constexpr (std::is_same_v<VT, novalue>) {
+        if (oc == OC_VALUE)
+          oc = OC_DONE;
+      }
       // NB: after the set_xxx call *this may be destroyed
       if (oc == OC_VALUE) {
         UNIFEX_TRY {
-          if constexpr (std::is_void_v<VT>) {
+          if constexpr (std::is_same_v<VT, novalue>) {
+            // unreachable (mapped to done above)
+          } else if constexpr (std::is_void_v<VT>) {
             ev("Lc %d %d v - tag=%d", id, n, G.cur_tag);
             unifex::set_value(std::move(rcvr));
           } else {
@@ -1100,5 +1110,47 @@ inline std::vector<prog_entry>& registry() {
 struct registrar {
   registrar(int id, void (*run)()) { registry().push_back({id, run}); }
 };
+
+// ---------------------------------------------------------------------------
+// streams (C13): a probe stream whose next()/cleanup() senders are manual leaves
+//   next leaf id = 10*sid+1 (value flavour), cleanup leaf id = 10*sid+2 (void flavour, completes with done)
+// ---------------------------------------------------------------------------
+struct probe_stream : tracked<K_MISC> {
+  int sid;
+  explicit probe_stream(int s) noexcept : sid(s) {}
+  using next_t = leaf<val, unifex::_block::_enum::maybe, true, false, false>;
+  using cleanup_t = leaf<novalue, unifex::_block::_enum::maybe, true, false, false>;
+  next_t next() noexcept {
+    ev("Sn %d", sid);
+    return next_t{sid * 10 + 1};
+  }
+  cleanup_t cleanup() noexcept {
+    ev("Sc %d", sid);
+    return cleanup_t{sid * 10 + 2};
+  }
+};
+
+// filter predicate: k-th call (per scenario) returns bit (k mod 16) of mask
+struct fpred_t : tracked<K_FN> {
+  int k;
+  unsigned mask;
+  fpred_t(int k_, unsigned m) : k(k_), mask(m) {}
+  template <class... As>
+  bool operator()(const As&... as) {
+    ev("F %d %s", k, describe_all(as...).c_str());
+    if (G.scn.stop_kind == STOP_IN_FN && G.scn.stop_a == k)
+      request_stop();
+    maybe_throw("fn");
+    int n = G.pred_calls[k]++;
+    return (mask >> (n % 16)) & 1u;
+  }
+  template <class... As>
+  bool operator()(const As&... as) const {
+    return const_cast<fpred_t&>(*this)(as...);
+  }
+};
+inline fpred_t fpred(int k, unsigned mask) {
+  return fpred_t{k, mask};
+}
 
 }  // namespace vf
